@@ -195,7 +195,7 @@ struct SIMDVector<int32_t,simd_abi::avx512> {
 
     FASTOR_INLINE int32_t minimum() {
         internal::int32_lane_t *vals = (internal::int32_lane_t*)&value;
-        int32_t quan = 0;
+        int32_t quan = vals[0];
         for (FASTOR_INDEX i=0; i<Size; ++i)
             if (vals[i]<quan)
                 quan = vals[i];
@@ -203,7 +203,7 @@ struct SIMDVector<int32_t,simd_abi::avx512> {
     }
     FASTOR_INLINE int32_t maximum() {
         internal::int32_lane_t *vals = (internal::int32_lane_t*)&value;
-        int32_t quan = 0;
+        int32_t quan = vals[0];
         for (FASTOR_INDEX i=0; i<Size; ++i)
             if (vals[i]>quan)
                 quan = vals[i];
@@ -536,7 +536,7 @@ struct SIMDVector<int32_t,simd_abi::avx> {
 
     FASTOR_INLINE int32_t minimum() {
         internal::int32_lane_t *vals = (internal::int32_lane_t*)&value;
-        int32_t quan = 0;
+        int32_t quan = vals[0];
         for (FASTOR_INDEX i=0; i<Size; ++i)
             if (vals[i]<quan)
                 quan = vals[i];
@@ -544,7 +544,7 @@ struct SIMDVector<int32_t,simd_abi::avx> {
     }
     FASTOR_INLINE int32_t maximum() {
         internal::int32_lane_t *vals = (internal::int32_lane_t*)&value;
-        int32_t quan = 0;
+        int32_t quan = vals[0];
         for (FASTOR_INDEX i=0; i<Size; ++i)
             if (vals[i]>quan)
                 quan = vals[i];
@@ -856,7 +856,7 @@ struct SIMDVector<int32_t,simd_abi::sse> {
 
     FASTOR_INLINE int32_t minimum() {
         internal::int32_lane_t *vals = (internal::int32_lane_t*)&value;
-        int32_t quan = 0;
+        int32_t quan = vals[0];
         for (FASTOR_INDEX i=0; i<Size; ++i)
             if (vals[i]<quan)
                 quan = vals[i];
@@ -864,7 +864,7 @@ struct SIMDVector<int32_t,simd_abi::sse> {
     }
     FASTOR_INLINE int32_t maximum() {
         internal::int32_lane_t *vals = (internal::int32_lane_t*)&value;
-        int32_t quan = 0;
+        int32_t quan = vals[0];
         for (FASTOR_INDEX i=0; i<Size; ++i)
             if (vals[i]>quan)
                 quan = vals[i];
